@@ -457,6 +457,18 @@ def binding_battery():
     for k in (2, 3):
         b.append(Scenario("A Y\n5 X\n9 X\n5 X\n9 X\n5 X\n", S, default_answer=[0, 0, 0], fail_at=[k], stop_on_err=False,
                           note="driver fails at call %d and the caller goes on: changed flags follow what was handed over" % k))
+    # third round: declared signals the header does not list; defaults wider than their signal
+    S3 = [("in", "A", 8, 0), ("out", "Q", 8)]
+    b.append(Scenario("A Q\ndeclare NQ = !Q;\n1 X\n2 7\n", S3, default_answer=[0],
+                      expect={"row_expected": [["X", "X"], ["7", "X"]]},
+                      note="a declared signal without a column still has its entry (expected X) in every checked row"))
+    b.append(Scenario("A Q V2\ndeclare V1 = Q;\ndeclare V2 = Q + 1;\n1 X 5\n", S3, default_answer=[0],
+                      expect={"row_expected": [["X", "X", "5"]]}, note="two declarations, only the second has a column"))
+    S4 = [("in", "A", 8, 0), ("in", "B", 4, -1), ("bidir", "D", 8, 0x1FF), ("out", "Y", 8)]
+    b.append(Scenario("A Y\n1 X\n2 X\n", S4, default_answer=[0, 0],
+                      expect={"row_inputs_full": [[("A", "1", True), ("B", "-1", False), ("D", "511", False)],
+                                                  [("A", "2", True), ("B", "-1", False), ("D", "511", False)]]},
+                      note="defaults wider than their signal are handed over as declared, on every row as in the first call"))
     S2 = [("bidir", "IO", 8, 1), ("bidir", "IO2", 8, 2), ("out", "Y", 8)]
     b.append(Scenario("IO IO2 IO2_out Y\n3 4 5 6\n", S2, default_answer=[0, 0, 0],
                       expect={"row_inputs_full": [[("IO", "3", True), ("IO2", "4", True)]], "row_expected": [["X", "5", "6"]]},
